@@ -388,10 +388,14 @@ def tagged(item, prop):
 def _check(prop, cfg, tier, seed, scratch, t0):
     units = cfg.get("units", [])
     unit_results = []
+    deferred = []   # no-verdict reasons from the deductive part; the bounded stand-in still runs
     with concurrent.futures.ThreadPoolExecutor(max_workers=max(1, len(units))) as ex:
         futs = {u: ex.submit(verify_unit, u, scratch) for u in units}
         for u in units:
-            unit_results.append(futs[u].result())
+            try:
+                unit_results.append(futs[u].result())
+            except NoVerdict as e:
+                deferred.append(str(e))
     violations = []  # {obligation, text}
     other_failures = []  # failing obligations that belong to other properties only
     mine_labels = {}
@@ -432,12 +436,12 @@ def _check(prop, cfg, tier, seed, scratch, t0):
                 if f.get("tags") and not f.get("composite"):
                     precise |= set(f["tags"])
             for f in fs:
-                if precise:
-                    mine = prop in precise and bool(f.get("tags")) and not f.get("composite") and prop in f["tags"]
+                if f.get("tags") and not f.get("composite"):
+                    mine = prop in f["tags"]                       # a facet clause
                 elif f.get("tags"):
-                    mine = prop in f["tags"]
+                    mine = (prop in f["tags"]) and not precise     # the composite, consulted only alone
                 else:
-                    mine = tagged(it, prop)
+                    mine = tagged(it, prop)                        # untagged (panic, overflow, bounds, ..): every property the function serves
                 if mine:
                     violations.append({"obligation": "%s: %s" % (label, f["msg"]), "unit": an["unit"], "verifier_output": f["text"]})
                 else:
@@ -455,12 +459,12 @@ def _check(prop, cfg, tier, seed, scratch, t0):
             discharged += 1
     # vacuity guards
     canaries = []
-    for u in units:
+    for u in [an["unit"] for an in unit_results]:
         c = verify_canary(u, scratch)
         canaries.append({"unit": u, **c})
         if c["vacuous"]:
             raise NoVerdict("vacuity guard: these functions verify even with `ensures false` (contradictory context): %s" % c["vacuous"])
-    if obligations == 0 and units:
+    if obligations == 0 and units and not deferred:
         raise NoVerdict("no obligation generated for %s" % prop)
     # Kani
     kani_results = run_kani(cfg.get("kani", []), scratch) if cfg.get("kani") else []
@@ -474,15 +478,17 @@ def _check(prop, cfg, tier, seed, scratch, t0):
             novalue.append("kani harness %s gave no verdict: %s" % (k["harness"], k["tail"][-600:]))
     # bounded stand-ins / counterexample search
     replay_res = None
-    if cfg.get("replay") or violations:
+    if cfg.get("replay") or violations or deferred:
         rj = os.path.join(scratch, "replay-%s.json" % prop)
         replay_res = run_replay(prop, tier, rj, seed, scratch)
     bounded_viol = []
     if replay_res:
         for v in replay_res.get("violations", []):
             bounded_viol.append(v)
-    if novalue and not violations and not bounded_viol:
-        raise NoVerdict("; ".join(novalue))
+    if (novalue or deferred) and not violations and not bounded_viol:
+        raise NoVerdict("; ".join(novalue + deferred))
+    for d in deferred:
+        log("note: the deductive part gave no verdict (%s); the violation below comes from the bounded stand-in with a concrete failing input" % d[:300])
 
     # ---- report -----------------------------------------------------------
     wall = time.time() - t0
